@@ -172,7 +172,13 @@ pub fn run_child(ops: &[String]) {
                     st.inst = Some(i);
                 }
                 let after = all_disps(st.lib);
-                format!("{} disp={}", k, disp_diff(&before, &after))
+                if k == "ok" {
+                    format!("{} disp={}", k, disp_diff(&before, &after))
+                } else {
+                    // a failed constructor must not leave descriptors (its self-pipe, kept alive by a
+                    // registration it forgot to remove) behind
+                    format!("{} disp={} fds={:+}", k, disp_diff(&before, &after), open_fds() as i64 - st.fd_base as i64)
+                }
             }
             ["add", sig] | ["hadd", sig] => {
                 let sig: i32 = sig.parse().unwrap();
